@@ -26,7 +26,7 @@ TIMEOUT = {"quick": 2400, "thorough": 7200}
 MIN_COUNTERS = {"quick": {"schedules_checked": 40, "steps_observed": 60, "schedules_hitting_capacity": 8, "hook_events": 60,
                           "e2e_schedules": 5},
                 "thorough": {"schedules_checked": 600, "steps_observed": 900, "schedules_hitting_capacity": 100, "hook_events": 900,
-                             "e2e_schedules": 50}}
+                             "e2e_schedules": 50, "e2e_schedules_with_validation_module": 20}}
 
 
 def gen_cases(tier, seed):
@@ -95,6 +95,8 @@ def run_case(case, rec):
         final = R["final"]
     else:
         rec.count("e2e_schedules")
+        if case.get("with_validation"):
+            rec.count("e2e_schedules_with_validation_module")
         for h in R["history"]:
             ev = h["events"]
             rec.count("hook_events", len(ev))
@@ -117,7 +119,7 @@ def run_case(case, rec):
                    final_J=final["J"])
     if observed_steps != exp_steps:
         kind_ = "steps-at-wrong-iterations"
-        if exp_steps and case.get("legs", 1) == 1 and case["every"] > 1 and \
+        if exp_steps and observed_steps and case.get("legs", 1) == 1 and case["every"] > 1 and \
                 observed_steps == [(l, i + case["every"]) for l, i in exp_steps if i + case["every"] < rarsim.N_ITERS][:len(observed_steps)]:
             kind_ = "first-step-late-by-one-period"
         elif len(observed_steps) > len(exp_steps) and observed_steps[:len(exp_steps)] == exp_steps:
